@@ -24,10 +24,16 @@ def _solve_z3(smt2, timeout_ms, want_model=True, ematching_only=False):
     wd = threading.Timer(timeout_ms / 1000.0 * 1.5 + 5, c.interrupt)
     wd.daemon = True
     wd.start()
+    # last resort: some z3 loops ignore the interrupt as well; the solving PROCESS then ends itself.  In the pool this breaks the pool, and
+    # discharge() re-runs the unanswered queries with every z3 call isolated in a forked child (see _run_pool); there the stuck child just exits.
+    wd2 = threading.Timer(timeout_ms / 1000.0 * 1.5 + 25, os._exit, [3])
+    wd2.daemon = True
+    wd2.start()
     try:
         r = s.check()
     finally:
         wd.cancel()
+        wd2.cancel()
     dt = time.time() - t0
     model = None
     if r == z3.sat and want_model:
